@@ -1,0 +1,23 @@
+//go:build verif
+
+package snowflake
+
+import "time"
+
+// VerifSetNow replaces the wall clock read by HardNode.Generate and returns a function
+// restoring the previous one (build tag "verif"). Call it only while no Generate is in
+// flight.
+func VerifSetNow(f func() time.Time) (restore func()) {
+	var old = _HookNow
+	_HookNow = f
+	return func() { _HookNow = old }
+}
+
+// VerifSetConfig sets the package configuration (epoch in ms, node bits, node position)
+// directly - Setup cannot reset node-at-lowest - and returns a function restoring the
+// previous configuration.
+func VerifSetConfig(epoch int64, nodeBits uint8, nodeAtLowest bool) (restore func()) {
+	var e, b, l = _epoch, _nodeBits, _nodeAtLowest
+	_epoch, _nodeBits, _nodeAtLowest = epoch, nodeBits, nodeAtLowest
+	return func() { _epoch, _nodeBits, _nodeAtLowest = e, b, l }
+}
